@@ -20,6 +20,13 @@ class SBytes:
     __slots__ = ("b",)
     _sbytes_ = True
 
+    @classmethod
+    def _norm_list(cls, items):
+        """elements that are already normalised (taken from other SBytes): no re-simplification"""
+        o = object.__new__(cls)
+        o.b = list(items)
+        return o
+
     def __init__(self, items=()):
         out = []
         for x in items:
@@ -55,7 +62,7 @@ class SBytes:
         if isinstance(x, SBytes):
             return x
         if isinstance(x, (bytes, bytearray)):
-            return SBytes(list(x))
+            return SBytes._norm_list(list(x))
         raise Unsupported("SBytes operand %r" % type(x))
 
     def is_concrete(self):
@@ -71,10 +78,10 @@ class SBytes:
         return len(self.b) > 0
 
     def __add__(self, o):
-        return SBytes(self.b + SBytes.lift(o).b)
+        return SBytes._norm_list(self.b + SBytes.lift(o).b)
 
     def __radd__(self, o):
-        return SBytes(SBytes.lift(o).b + self.b)
+        return SBytes._norm_list(SBytes.lift(o).b + self.b)
 
     def __mul__(self, k):
         if isinstance(k, SInt):
@@ -82,14 +89,14 @@ class SBytes:
             if c is None:
                 return SRepeat(self, k)
             k = c
-        return SBytes(self.b * k)
+        return SBytes._norm_list(self.b * k)
     __rmul__ = __mul__
 
     def __getitem__(self, i):
         if isinstance(i, slice):
             if isinstance(i.start, SInt) or isinstance(i.stop, (SInt, ZInt)):
                 return self._symslice(i)
-            return SBytes(self.b[i])
+            return SBytes._norm_list(self.b[i])
         if isinstance(i, SInt):
             c = i.concrete()
             if c is None:
@@ -278,9 +285,12 @@ class SBytes:
                         raise UnicodeDecodeError("ascii", bytes([x]), 0, 1, "ordinal not in range(128)")
                     items.append(chr(x))
                 else:
-                    if e == "ascii" and not sym._forced(z3.ULT(x, 128)):
-                        if bool(SBool(z3.UGE(x, 128))):
-                            raise UnicodeDecodeError("ascii", b"\xff", 0, 1, "ordinal not in range(128)")
+                    if e == "ascii":
+                        org = sym.origin_of(x)
+                        known = org is not None and max(org[0].values) < 128
+                        if not known and not z3.is_false(z3.simplify(z3.UGE(x, 128))) and not sym._forced(z3.ULT(x, 128)):
+                            if bool(SBool(z3.UGE(x, 128))):
+                                raise UnicodeDecodeError("ascii", b"\xff", 0, 1, "ordinal not in range(128)")
                     items.append(z3.ZeroExt(13, x))
             return SStr(items, [1] * len(items))
         if self.is_concrete():
@@ -484,7 +494,7 @@ _UFR = {}
 
 
 def bytes_of(term, n):
-    return SBytes([z3.Extract(8 * (n - 1 - i) + 7, 8 * (n - 1 - i), term) for i in range(n)])
+    return SBytes._norm_list([z3.Extract(8 * (n - 1 - i) + 7, 8 * (n - 1 - i), term) for i in range(n)])
 
 
 DIGEST_SIZES = {"md5": 16, "sha1": 20, "sha224": 28, "sha256": 32, "sha384": 48, "sha512": 64, "md4": 16}
@@ -537,7 +547,7 @@ class SHash:
             if not allb:
                 out = z3.BitVec("%s_empty" % self.name, 8 * n)
             else:
-                out = uf(self.name, 8 * len(allb), 8 * n)(SBytes(allb).bv())
+                out = uf(self.name, 8 * len(allb), 8 * n)(SBytes._norm_list(allb).bv())
         return bytes_of(out, n)
 
     def hexdigest(self):
